@@ -164,7 +164,14 @@ def r5(ctx):
     ws = field_writes(ob, "next_link_status_deadline")
     ok = len(ws) == 1 and mentions_field(ctx.sym(ob).rvalue_expr(ws[0][2].rv), "keep_alive_timeout")
     ctx.check(ok, "keepalive:rearm", "on_link_activity re-arms from config.keep_alive_timeout", ob.where(line=ob.line))
-    cl = prog.children(ob)
+    cl = list(prog.children(ob))
+    # the mapping closure may have become a nested fn `fn deadline_after(..)` handed to `map` by name
+    for b_, si_, st_ in ob.assigns():
+        pass
+    for x_ in ob.calls():
+        for a_ in ctx.sym(ob).call_expr(x_.term)[2] if ctx.sym(ob).call_expr(x_.term)[0] == "call" else ():
+            if a_[0] == "fn" and a_[1] in prog.bodies and a_[1].startswith(ob.path + "::"):
+                cl.append(prog.bodies[a_[1]])
     ok = any(any(mentions_call(ctx.sym(c).call_expr(x.term), r"Instant::now$") or (x.term.callee or "").endswith("Instant::now") for x in c.calls()) for c in cl)
     ctx.check(ok, "keepalive:rearm:now+timeout", "deadline = now + timeout", ob.where(line=ob.line))
     # called on every received fragment / link message path
